@@ -174,6 +174,16 @@ def explore(run, tier):
             ents = [(100 + i, 'x' * 992) for i in range(k)]
             cases.append(mk(rng, cfgx, codecs3[k % 3], ents))
         cases.append(mk(rng, cfgx, 'latin_1', [(7, 'seven'), (23, 'A' * 500), (158, 'B' * 700), (9999, '')]))
+    # caller configurations whose carriers declare a NOMINAL length (255, 100, 999, 30): a variable element's
+    # `field_length` is descriptive — a carrier is filled up to what its three-digit prefix can count
+    for nominal in (255, 100, 999, 30):
+        cfgn = copy.deepcopy(iu.pkg_config())
+        for kk, fc in cfgn.items():
+            if fc.get('field_processor') == 'PDS':
+                fc['field_length'] = nominal
+        for ents in ([(100 + i, 'v' * 150) for i in range(8)], [(1, 'a' * 500), (2, 'b' * 480)], [(7, 'x' * 992)],
+                     [(i, 'y' * 90) for i in range(1, 40)]):
+            cases.append(mk(rng, cfgn, codecs3[nominal % 3], ents))
     # PDS together with other elements and with generated carrier sets
     for _ in range(300 if tier == 'quick' else 5000):
         cfg = rng.choice(['pkg', 'gen'])
